@@ -100,6 +100,11 @@ pub struct DispatcherBuilder<'a, 'b> {
     thread_local: ThreadLocal<'b>,
     #[cfg(feature = "parallel")]
     thread_pool: ::std::sync::Arc<::std::sync::RwLock<ThreadPoolWrapper>>,
+    /// Pool cells still held by the dispatchers of batches nested more than one
+    /// level deep (those were built before their builder was handed to
+    /// `add_batch` and took over this builder's cell).
+    #[cfg(feature = "parallel")]
+    nested_thread_pools: Vec<::std::sync::Arc<::std::sync::RwLock<ThreadPoolWrapper>>>,
 }
 
 impl<'a, 'b> DispatcherBuilder<'a, 'b> {
@@ -266,7 +271,15 @@ impl<'a, 'b> DispatcherBuilder<'a, 'b> {
     {
         #[cfg(feature = "parallel")]
         {
-            dispatcher_builder.thread_pool = self.thread_pool.clone();
+            // Batches inside `dispatcher_builder` keep its old cell: remember it
+            // (and theirs), so that `build` can hand them the same pool.
+            let old = ::std::mem::replace(
+                &mut dispatcher_builder.thread_pool,
+                self.thread_pool.clone(),
+            );
+            self.nested_thread_pools.push(old);
+            self.nested_thread_pools
+                .append(&mut dispatcher_builder.nested_thread_pools);
         }
 
         let mut reads = dispatcher_builder.stages_builder.fetch_all_reads();
@@ -388,6 +401,8 @@ impl<'a, 'b> DispatcherBuilder<'a, 'b> {
             .write()
             .unwrap()
             .get_or_insert_with(Self::create_thread_pool);
+        #[cfg(feature = "parallel")]
+        self.share_thread_pool();
 
         #[cfg(feature = "parallel")]
         let d = new_dispatcher(
@@ -407,6 +422,16 @@ impl<'a, 'b> DispatcherBuilder<'a, 'b> {
         self.current_id += 1;
 
         SystemId(id)
+    }
+
+    /// Gives the batches nested more than one level deep the pool of this
+    /// builder.
+    #[cfg(feature = "parallel")]
+    fn share_thread_pool(&self) {
+        let pool = self.thread_pool.read().unwrap().clone();
+        for cell in &self.nested_thread_pools {
+            *cell.write().unwrap() = pool.clone();
+        }
     }
 
     #[cfg(feature = "parallel")]
@@ -438,6 +463,7 @@ impl<'b> DispatcherBuilder<'static, 'b> {
             .write()
             .unwrap()
             .get_or_insert_with(Self::create_thread_pool);
+        self.share_thread_pool();
 
         new_async(
             world,
